@@ -37,7 +37,7 @@ Definition node := nat.
 
 Inductive caller := InWait | InSignal | InBroadcast.            (* who called checkCopy / checkFirstUse *)
 Inductive nnctx := NNWait (n : node) | NNOne | NNAll.           (* who called notifyNext *)
-Inductive rmctx := RMNext (k : nnctx) | RMWait (n : node).      (* who called chanList.remove *)
+Inductive rmctx := RMNext (k : nnctx) | RMWait.       (* who called chanList.remove; RMWait: the waiter unlinks its own node *)
 Inductive lenctx := LenWait (n : node) | LenOne | LenAll.       (* who called chanList.len *)
 
 (* program counter = the statement the thread is about to execute (+ the locals of its frames) *)
@@ -290,7 +290,7 @@ Definition step_pc (c : ccfg) (t : tid) (o : nat) (p : cpc) : option stepout :=
   | WT_IfLen n => go c (LEN (LenWait n))
   | WT_Forward n => go c (NN_Front (NNWait n))
   | WT_Default n => go c (WT_Remove n)
-  | WT_Remove n => go c (RM_1 (RMWait n) n)
+  | WT_Remove n => go c (RM_1 RMWait n)
   | WT_RetErr n => go (set_mu None c) (FR_Put n false)       (* deferred l.mu.Unlock(), then free's hook *)
   | WT_CaseCh n => go c (WT_RetNil n)
   | WT_RetNil n => go c (FR_Put n true)
@@ -352,7 +352,7 @@ Definition step_pc (c : ccfg) (t : tid) (o : nat) (p : cpc) : option stepout :=
       let c1 := set_lst (remove_node m (c_lst c)) c in
       match r with
       | RMNext _ => go (set_notified (m :: g_notified c) c1) (RM_2 r m)
-      | RMWait _ => go c1 (RM_2 r m)
+      | RMWait => go c1 (RM_2 r m)
       end
     else None
   | RM_2 r m => go c (RM_3 r m)
@@ -362,7 +362,7 @@ Definition step_pc (c : ccfg) (t : tid) (o : nat) (p : cpc) : option stepout :=
     let c1 := set_size (c_size c - 1) c in
     match r with
     | RMNext k => go c1 (NN_Send k m)
-    | RMWait n => go c1 (WT_RetErr n)
+    | RMWait => go c1 (WT_RetErr m)
     end
   end.
 
@@ -381,7 +381,7 @@ Definition in_wait (p : cpc) : bool :=
   | NN_Remove (NNWait _) _ | NN_Send (NNWait _) _ => true
   | RM_1 (RMNext (NNWait _)) _ | RM_2 (RMNext (NNWait _)) _ | RM_3 (RMNext (NNWait _)) _
   | RM_4 (RMNext (NNWait _)) _ | RM_5 (RMNext (NNWait _)) _ => true
-  | RM_1 (RMWait _) _ | RM_2 (RMWait _) _ | RM_3 (RMWait _) _ | RM_4 (RMWait _) _ | RM_5 (RMWait _) _ => true
+  | RM_1 RMWait _ | RM_2 RMWait _ | RM_3 RMWait _ | RM_4 RMWait _ | RM_5 RMWait _ => true
   | _ => false
   end.
 
@@ -539,12 +539,12 @@ Definition nodest (p : cpc) : option (node * phase) :=
   | PB_4 n | PB_5 n | AD_Ret n => Some (n, PhLinkMu)
   | W_LUnlock n | W_DeferLock n | W_RetWait n | WT_Ch n | WT_DeferFree n | WT_Select n | WT_Parked n
   | WT_CaseCtx n | WT_Lock n | WT_DeferUnlock n | WT_Select1 n => Some (n, PhAwait)
-  | WT_Default n | WT_Remove n | RM_1 (RMWait n) _ => Some (n, PhSelf)
+  | WT_Default n | WT_Remove n | RM_1 RMWait n => Some (n, PhSelf)
   | WT_CaseTok n | WT_IfLen n | LEN (LenWait n) | WT_Forward n
   | NN_Front (NNWait n) | FT_Ret (NNWait n) | NN_Ch (NNWait n) _ | NN_Remove (NNWait n) _ | NN_Send (NNWait n) _
   | RM_1 (RMNext (NNWait n)) _ | RM_2 (RMNext (NNWait n)) _ | RM_3 (RMNext (NNWait n)) _
   | RM_4 (RMNext (NNWait n)) _ | RM_5 (RMNext (NNWait n)) _
-  | RM_2 (RMWait n) _ | RM_3 (RMWait n) _ | RM_4 (RMWait n) _ | RM_5 (RMWait n) _
+  | RM_2 RMWait n | RM_3 RMWait n | RM_4 RMWait n | RM_5 RMWait n
   | WT_RetErr n | WT_CaseCh n | WT_RetNil n | FR_Put n _ => Some (n, PhQuiet)
   | _ => None
   end.
@@ -578,7 +578,7 @@ Definition in_ctx (p : cpc) : bool :=
   | NN_Send (NNWait _) _ => true
   | RM_1 (RMNext (NNWait _)) _ | RM_2 (RMNext (NNWait _)) _ | RM_3 (RMNext (NNWait _)) _
   | RM_4 (RMNext (NNWait _)) _ | RM_5 (RMNext (NNWait _)) _ => true
-  | RM_1 (RMWait _) _ | RM_2 (RMWait _) _ | RM_3 (RMWait _) _ | RM_4 (RMWait _) _ | RM_5 (RMWait _) _ => true
+  | RM_1 RMWait _ | RM_2 RMWait _ | RM_3 RMWait _ | RM_4 RMWait _ | RM_5 RMWait _ => true
   | _ => false
   end.
 
